@@ -83,6 +83,9 @@ def collect(ctx: Ctx):
         loop.call_soon(tr.feed, state["reply"])
     net.on_bytes = on_bytes
     sample = rng.sample(vectors, ctx.pick(300, 4000))
+    # every truncation length of two originals reaches the transport too (the framing layer sees what _Packet.decode never does)
+    for f0 in {bytes(v["frame"]) for v in vectors if v["kind"] == "mutant" and len(v["frame"]) in (1, 34)}:
+        sample += [v for v in vectors if v["kind"] == "mutant" and v["mut"][0] == "trunc" and bytes(v["frame"]) == f0 and (ctx.quick is False or v["mut"][1] < 48 or v["mut"][1] % 5 == 0)]
     via = []
 
     async def go():
@@ -162,6 +165,35 @@ def placements(ctx, vectors):
             if l._protocol:
                 l._disconnect()
     vloop.run(loop, go())
+
+    # the altered packet sharing a TCP segment with an authentic one, and a truncated packet left behind by an exchange
+    head = [v for v in vectors if v["kind"] == "mutant" and v["mut"][0] in ("flip", "sub") and v["mut"][1] < 6]
+    trunc = [v for v in vectors if v["kind"] == "mutant" and v["mut"][0] == "trunc" and 0 < len(v["q"]) < len(v["orig"])]
+    anym = [v for v in vectors if v["kind"] == "mutant" and v["mut"][0] != "trunc" and len(v["q"]) > 0]
+    n2 = ctx.pick(60, 800)
+    coal = rng.sample(head, min(len(head), n2)) + rng.sample(anym, min(len(anym), n2)) + rng.sample(trunc, min(len(trunc), n2))
+    tails = rng.sample(trunc, min(len(trunc), n2)) + [v for v in trunc if len(v["q"]) <= 8][:40]
+
+    async def go2():
+        for k, v in enumerate(coal + tails):
+            l = LAN("10.0.0.1", 6444, 1)
+            orig, q = bytes(v["orig"]), bytes(v["q"])
+            if k >= len(coal) or (k % 2 == 1 and q[:2] == b"\x5a\x5a"):
+                # (F14: bytes behind a complete packet in the same segment that do not begin with the start marker are line noise to the framer and
+                #  are dropped, as upstream always did - so a packet whose marker was altered is only placed IN FRONT of an authentic one)
+                # exchange 1 is answered by the authentic packet with the altered / cut-off one behind it in the SAME segment (or, for tails, the
+                # next one); exchange 2 by an authentic packet.  The alteration has to surface as a protocol error in one of the two exchanges.
+                res = await one(l, [orig + q] if k < len(coal) else [orig, q])
+                mode = "behind the authentic reply in one segment, then a second exchange" if k < len(coal) else "cut-off packet behind the authentic reply, then a second exchange"
+                if res["k"] == "frame":
+                    res = await one(l, [orig]) if l._protocol else res
+            else:
+                res = await one(l, [q + orig])
+                mode = "in front of an authentic packet in one segment"
+            out.append(dict(v, res=res, via="LAN.send, " + mode))
+            if l._protocol:
+                l._disconnect()
+    vloop.run(loop, go2())
     # inside a valid V3 packet
     s = sched.Session(version=3, retries=1, seed=ctx.seed)
     try:
@@ -216,7 +248,7 @@ def run(ctx: Ctx) -> int:
     return ctx.finish(
         rule="authentic packets for frame lengths 0,1,15,16,17,34 (+48,255): every single-bit flip at every position, every truncation "
              "length, byte substitutions (quick 8 values, thorough all 255), random multi-byte corruptions, fed to _Packet.decode and "
-             "(sampled) delivered through LAN.send as the reply, right behind an authentic reply, while idle before the next exchange, and inside a valid V3 packet; distinct = distinct altered byte strings (x entry point)",
+             "(sampled) delivered through LAN.send as the reply, right behind an authentic reply, while idle before the next exchange, sharing a TCP segment with an authentic packet (in front / behind), as a cut-off packet left behind by an exchange, and inside a valid V3 packet; every truncation length also at transport level; distinct = distinct altered byte strings (x entry point)",
         assumptions=["MD5 collisions are not considered: the reference MD5 of the altered packet decides whether a mutant is acceptable"])
 
 
